@@ -15,6 +15,7 @@ mod c08;
 mod c09;
 mod c11;
 mod c12;
+mod c13;
 mod c14;
 mod c15;
 mod graphref;
@@ -36,6 +37,7 @@ fn make_check(prop: &str, tier: Tier) -> Option<Box<dyn Check>> {
         "C11" => Box::new(c11::C11::new(tier)),
         "C18" => Box::new(c18::C18::new(tier)),
         "C12" => Box::new(c12::C12::new(tier)),
+        "C13" => Box::new(c13::C13::new(tier)),
         "C14" => Box::new(c14::C14::new(tier)),
         "C15" => Box::new(c15::C15::new(tier)),
         "C16" => Box::new(c16::C16::new(tier)),
